@@ -6,7 +6,7 @@
 (*   drift:<clause>     the code did something the spec action does not predict       *)
 (*                                                                                    *)
 (* Events of one trace, in this order (the driver always writes all of them):         *)
-(*   Begin   names [[char]], kinds [kind], tdep [tdep], steptol, option [[char]], wf     *)
+(*   Begin   names [[char]], kinds [kind], tdep [tdep], steptol, horizon, option [[char]], wf     *)
 (*                                          the system: its series in the solver's      *)
 (*                                          order, and the exclusion option as handed   *)
 (*                                          to the solver; which series the loop skips  *)
@@ -42,7 +42,8 @@ SetOfSeq(s) == { s[i] : i \in 1..Len(s) }
 
 Untouched(e) == IF e.same_eq /\ e.same_exo /\ e.same_hor THEN Ok ELSE P("C15_LeavesSolverUntouched")
 
-Reset(nms, kds, tds, st, opt, w) ==
+Reset(nms, kds, tds, st, hz, opt, w) ==
+    /\ horizon' = hz
     /\ phase' = "idle" /\ n' = Len(nms) /\ names' = nms /\ kinds' = kds /\ tdep' = tds /\ steptol' = st /\ option' = opt /\ wf' = w /\ sid' = 0
     /\ excluded' = SkippedSet(nms, kds, opt)
     /\ runres' = "none" /\ cls' = << >> /\ judged' = {} /\ bad' = {} /\ exc' = ""
@@ -61,14 +62,14 @@ JudgeOutcome(e) ==
 NoNames == << << "x" >> >>
 NoKinds == << "solved" >>
 NoTDep == << "none" >>
-TraceInit == Setup(NoNames, NoKinds, NoTDep, "none", {}, TRUE, 0) /\ l = 1 /\ verdict = Ok /\ unsteady = 0
+TraceInit == Setup(NoNames, NoKinds, NoTDep, "none", "many", {}, TRUE, 0) /\ l = 1 /\ verdict = Ok /\ unsteady = 0
 
 TraceNext ==
     /\ l <= Len(Log)
     /\ l' = l + 1
     /\ LET e == Log[l] IN
        \/ /\ e.ev = "Begin"
-          /\ Reset(e.names, e.kinds, e.tdep, e.steptol, SetOfSeq(e.option), e.wf)
+          /\ Reset(e.names, e.kinds, e.tdep, e.steptol, e.horizon, SetOfSeq(e.option), e.wf)
           /\ verdict' = Ok /\ unsteady' = 0
        \/ /\ e.ev = "Copy"
           /\ Copy
@@ -105,7 +106,7 @@ TraceNext ==
           /\ UNCHANGED unsteady
        \/ /\ e.ev = "End"
           /\ PrintT(<< "VERDICT", e.tid, verdict.kind \o ":" \o verdict.clause >>)
-          /\ Reset(NoNames, NoKinds, NoTDep, "none", {}, TRUE)
+          /\ Reset(NoNames, NoKinds, NoTDep, "none", "many", {}, TRUE)
           /\ verdict' = Ok /\ unsteady' = 0
 
 TraceSpec == TraceInit /\ [][TraceNext]_tvars
